@@ -19,8 +19,11 @@ RULE = ('one case = one scripted response document returned by the transport for
         '(+0..2 notifications) made by the real sync / async client, strict on / off, observed through send() and through '
         'call(). Fault space: every permutation of the correct array (n <= 3 exhaustively, n = 4 sampled) x every '
         'success/error mix x {none, omit k, duplicate k, add an unasked id, retype id k ("1" for 1), boolean / fractional / '
-        'null id on k} + batch-level error object + non-array / invalid-element garbage; singles: id relation {equal, '
-        'different, null, retyped, boolean} x {result, error}. Expected verdicts come from vmon/models/client_match.py; '
+        'null id on k, `jsonrpc` member of element k / of every element not exactly the string "2.0"} + batch-level error '
+        'object (also with every wrong `jsonrpc` member) + non-array / invalid-element garbage; singles: id relation {equal, '
+        'different, null, retyped, boolean} x {result, error}, and every wrong `jsonrpc` member x {result, error}. Wrong '
+        '`jsonrpc` members: absent, null, the numbers 2.0 / 2 / 2.1 / 20 / 0 / 1.0, booleans, other strings ("2", "2.00", '
+        '"1.0", "2.1", "", padded, fullwidth digits), containers holding "2.0". Expected verdicts come from vmon/models/client_match.py; '
         'every call result is a unique token so attribution is unambiguous. Distinct = distinct (request shape, response '
         'document, strict, client kind, operation).')
 ASSUMPTIONS = [
@@ -37,11 +40,13 @@ ANCHORS = [
     ('pjrpc/client/client.py', 'AbstractClient._send'), ('pjrpc/client/client.py', 'AbstractAsyncClient._send'),
 ]
 _FAULTS = ['none', 'omit', 'duplicate', 'extra', 'retype', 'bool-id', 'float-id', 'null-id', 'extra-null-id', 'batch-level-error', 'garbage',
-           'omit-two', 'extra-two', 'omit+null-id-error']
+           'omit-two', 'extra-two', 'omit+null-id-error', 'version', 'version-batch-level']
 FLOORS = {'*': {**{f'fault:{f}:{k}': 5 for f in _FAULTS for k in ('sync', 'async')},
                 'permutation:non-identity-accepted': 50, 'single:equal': 10, 'single:different': 10, 'single:null': 10,
                 'single:retyped': 10, 'single:bool': 4, 'strict:off': 100, 'op:send': 200, 'op:call': 200,
-                'mix:has-error': 100, 'verdict:accept-with-null-id-elements': 20, 'ids:zero': 50, 'ids:str': 50, 'prior:accepted': 30, 'prior:refused': 30, 'verdict:identity': 100, 'verdict:deser': 50, 'verdict:accept': 200}}
+                'mix:has-error': 100, 'verdict:accept-with-null-id-elements': 20, 'ids:zero': 50, 'ids:str': 50, 'prior:accepted': 30, 'prior:refused': 30, 'verdict:identity': 100, 'verdict:deser': 50, 'verdict:accept': 200,
+                'version:single': 100, 'version:batch-element': 300, 'version:batch-level': 100,
+                **{f'version:{t}': 20 for t in ('absent', 'null', 'number', 'bool', 'string', 'container')}}}
 
 
 def scheme_ids(ids, n):
@@ -94,6 +99,11 @@ def run_batch(ctx, n, notif_at, doc, fault, strict, is_async, op, nonjson=None, 
     client = make_client(is_async, script if script else text, strict, id_start=0 if ids == 'zero' else 1)
     ctx.hit('ids:' + ids)
     ctx.hit(f'fault:{fault}:{ck}')
+    if fault in ('version', 'version-batch-level') and nonjson is None:
+        ctx.hit('version:batch-element' if fault == 'version' else 'version:batch-level')
+        for o in (doc if isinstance(doc, list) else [doc]):
+            if version_class(o) != 'exact':
+                ctx.hit('version:' + version_class(o))
     ctx.hit('op:' + op)
     if not strict:
         ctx.hit('strict:off')
@@ -272,6 +282,9 @@ def run_single(ctx, request_id, doc, relation, strict, is_async, op, nonjson=Non
     ck = 'async' if is_async else 'sync'
     client = make_client(is_async, text, strict)
     ctx.hit('single:' + relation)
+    if relation == 'version':
+        ctx.hit('version:single')
+        ctx.hit('version:' + version_class(doc))
     ctx.hit('op:' + op)
     if not strict:
         ctx.hit('strict:off')
@@ -295,7 +308,8 @@ def run_single(ctx, request_id, doc, relation, strict, is_async, op, nonjson=Non
     if verdict == 'deser':
         ctx.hit('verdict:deser')
         if st != 'exc' or not isinstance(out, DeserializationError):
-            ctx.violation('invalid-response-body-not-refused-with-DeserializationError:single', fam, cls, **wit)
+            ctx.violation('invalid-response-body-not-refused-with-DeserializationError:single' +
+                          (':version' if relation == 'version' else ''), fam, cls, **wit)
             return
     elif verdict == 'identity':
         ctx.hit('verdict:identity')
@@ -334,6 +348,38 @@ def run_single(ctx, request_id, doc, relation, strict, is_async, op, nonjson=Non
 
 
 # ---- generation ---------------------------------------------------------------------------------------
+
+NO_MEMBER = '__absent__'
+# everything a `jsonrpc` member can be that is not exactly the JSON string "2.0": member missing, null, numbers (the number
+# 2.0, whose decimal text reads like the version string, the integer 2, others), booleans, other strings (shorter / longer
+# spellings, other versions, blanks around it, look-alike digits), containers that hold the right string
+WRONG_VERSIONS = [NO_MEMBER, None, 2.0, 2, 2.1, 20, 0, 1.0, True, False, '2', '2.00', '1.0', '2.1', '', ' 2.0', '2.0 ', 'v2.0',
+                  '\uff12.\uff10', ['2.0'], {'2.0': '2.0'}, []]
+
+
+def with_version(obj, v):
+    o = dict(obj)
+    if isinstance(v, str) and v == NO_MEMBER:
+        o.pop('jsonrpc', None)
+    else:
+        o['jsonrpc'] = v
+    return o
+
+
+def version_class(obj):
+    if not isinstance(obj, dict) or 'jsonrpc' not in obj:
+        return 'absent'
+    v = obj['jsonrpc']
+    if v is None:
+        return 'null'
+    if isinstance(v, bool):
+        return 'bool'
+    if isinstance(v, (int, float)):
+        return 'number'
+    if isinstance(v, str):
+        return 'exact' if v == '2.0' else 'string'
+    return 'container'
+
 
 def mutate(perm_doc, n, fault, k, rng):
     d = [dict(e) for e in perm_doc]
@@ -394,6 +440,7 @@ def gen(ctx):
     deep = ctx.thorough
     full = True
     k = 0
+    vk = 0
 
     def modes():
         nonlocal k
@@ -414,12 +461,18 @@ def gen(ctx):
                 ids = ('one', 'zero', 'str', 'one', 'mixed')[(k + len(perm)) % 5]
                 base = [elem_for(ids, i, mask[i - 1]) for i in perm]
                 for fault in ('none', 'omit', 'duplicate', 'extra', 'retype', 'bool-id', 'float-id', 'null-id', 'extra-null-id',
-                              'omit-two', 'extra-two', 'omit+null-id-error'):
+                              'omit-two', 'extra-two', 'omit+null-id-error', 'version'):
                     if fault == 'omit-two' and n < 2:
                         continue
                     ks = range(n) if (deep or fault == 'none' or n <= 3) else [rng.randrange(n)]
                     for kk in ([0] if fault == 'none' else ks):
-                        doc = mutate(base, n, fault, kk, rng)
+                        if fault == 'version':
+                            # element kk of an otherwise correct (permuted, mixed) array carries a wrong `jsonrpc` member
+                            vk += 1
+                            doc = [dict(e) for e in base]
+                            doc[kk % len(doc)] = with_version(doc[kk % len(doc)], WRONG_VERSIONS[vk % len(WRONG_VERSIONS)])
+                        else:
+                            doc = mutate(base, n, fault, kk, rng)
                         notif = [[], [0], [n], [0, n + 1]][(k + kk) % 4] if n < 4 else []
                         for strict, is_async, op in modes():
                             if ids in ('str', 'mixed') and op == 'call':
@@ -427,6 +480,26 @@ def gen(ctx):
                             prior = ('none', 'none', 'accepted', 'refused')[(k + kk) % 4] if op == 'send' else 'none'
                             yield 'batch', dict(n=n, notif_at=notif, doc=doc, fault=fault, strict=strict, is_async=is_async,
                                                 op=op, ids=ids, prior=prior)
+        # every wrong `jsonrpc` member at every level of a batch reply: one element (each position), all elements, the
+        # batch-level error object (with / without its id member); ids and everything else are exactly right
+        if n <= 3:
+            for v in WRONG_VERSIONS:
+                for ids in (('one', 'zero', 'str') if deep else (('one', 'zero', 'str')[(n + WRONG_VERSIONS.index(v)) % 3],)):
+                    right = [elem_for(ids, i, (i + n) % 3 != 0) for i in range(1, n + 1)]
+                    docs = [[with_version(e, v) if j == pos else e for j, e in enumerate(right)] for pos in range(n)]
+                    if n > 1:
+                        docs.append([with_version(e, v) for e in right])
+                    for doc in docs:
+                        for strict, is_async, op in modes():
+                            if ids == 'str' and op == 'call':
+                                op = 'send'
+                            yield 'batch', dict(n=n, notif_at=[], doc=doc, fault='version', strict=strict, is_async=is_async,
+                                                op=op, ids=ids)
+                for tmpl in ({'jsonrpc': '2.0', 'id': None, 'error': {'code': -32600, 'message': 'Invalid Request'}},
+                             {'jsonrpc': '2.0', 'error': {'code': 5, 'message': 'm', 'data': [1]}}):
+                    for strict, is_async, op in [(s, a, o) for s in (True, False) for a in (False, True) for o in ('send', 'call')]:
+                        yield 'batch', dict(n=n, notif_at=[], doc=with_version(tmpl, v), fault='version-batch-level',
+                                            strict=strict, is_async=is_async, op=op)
         ble = {'jsonrpc': '2.0', 'id': None, 'error': {'code': -32600, 'message': 'Invalid Request', 'data': 'x'}}
         for doc in (ble, {'jsonrpc': '2.0', 'error': {'code': 5, 'message': ''}}):
             for strict, is_async, op in [(s, a, o) for s in (True, False) for a in (False, True) for o in ('send', 'call')]:
@@ -448,6 +521,16 @@ def gen(ctx):
                     for is_async in (False, True):
                         for op in (('send', 'call') if rid == 1 else ('send',)):
                             yield 'single', dict(request_id=rid, doc=doc, relation=relation, strict=strict, is_async=is_async, op=op)
+    # single replies that are right in everything (id equal to the request's) but the `jsonrpc` member
+    for v in WRONG_VERSIONS:
+        for rid in (1, 'a', 0):
+            for body in ({'result': 'r1'}, {'result': None}, {'error': {'code': -32601, 'message': 'Method not found'}},
+                         {'error': {'code': 7, 'message': 'm', 'data': 0}}):
+                doc = with_version({'jsonrpc': '2.0', 'id': rid, **body}, v)
+                for strict in (True, False):
+                    for is_async in (False, True):
+                        for op in (('send', 'call') if rid == 1 else ('send',)):
+                            yield 'single', dict(request_id=rid, doc=doc, relation='version', strict=strict, is_async=is_async, op=op)
     for g in GARBAGE:
         for strict, is_async, op in [(True, False, 'send'), (False, True, 'call')]:
             yield 'single', dict(request_id=1, doc=g, relation='garbage', strict=strict, is_async=is_async, op=op)
